@@ -87,7 +87,7 @@ Proof.
   5:{ (* mark: no event, no counter *)
       unfold mark. destruct (ps_handle (getp n st)) eqn:H.
       2:{ split; [|exact PN]. split; [rewrite count_nil; lia|]. intros p. rewrite !count_nil. repeat split; lia. }
-      destruct (exec_effect _ _ _ _).
+      destruct (exec_effect _ _ _ _) as [h1|].
       2:{ split; [|exact PN]. split; [rewrite count_nil; lia|]. intros p. rewrite !count_nil. repeat split; lia. }
       unfold setp. split; [|unfold progs_nodup; cbn [st_progs]; apply bupdate_nodup; exact PN].
       split; [cbn [st_lines]; rewrite count_nil; lia|]. intros p. rewrite !count_nil.
